@@ -266,3 +266,19 @@ CHECKS["C14"] = {
     "level_note": "Trusted: the MySQL/Postgres DDL grammar models and type tables (no such engines in the sandbox).",
     "min_nontrivial": 500,
 }
+
+CHECKS["C20"] = {
+    "parts": [{"variant": "ts", "kind": "script", "script": "c20_driver.py", "timeout_quick": 2400, "timeout_thorough": 4 * 3600}],
+    "level": "other",
+    "technique": "compile gate of a thread-shipping workload (a Send/Sync bound error is the violation witness) + sanitizers on its execution: Miri's data-race/UB interpreter over several schedule seeds, ThreadSanitizer (thorough), and a native many-thread run comparing every cross-thread rendering with the single-threaded one",
+    "rule": "every public statement / expression / condition / value / identifier type found by scanning /repo/src for `pub struct|enum` (131 names: 125 shipped with a non-trivial nested instance, 6 without public constructor gated at compile time only); each instance is built on one thread, moved through a channel, shared via Arc with N workers that render on three backends, clone, compare (==, exercising the unsafe transmute in SeaRc::eq) and drop concurrently; an async fn builds a value, is suspended across an await point and completed on another thread by a hand-written block_on; distinct_nontrivial = number of distinct types shipped",
+    "explanation": "Send + Sync is a type-level fact: the workload only compiles if every listed type satisfies the bounds under feature thread-safe (with all optional value-type features), so a type-level break is reported as a violation with the rustc diagnostic (E0277) as witness; the compile gate is not an observed execution and the evidence keeps it apart from the dynamic stages. An unsound `unsafe impl Send/Sync` shows up dynamically: Miri (data race / UB, quick: 16 executions over reduced instances, thorough: ~300), ThreadSanitizer (thorough, 5 repetitions, -Zbuild-std) and the native run (12-16 threads, renderings compared). `dyn QueryBuilder`/`dyn SchemaBuilder` trait objects carry no Send/Sync bound and are outside the property's quantifier.",
+    "assumptions": [
+        "Miri is ~4 orders of magnitude slower than native here, so Miri rows use structurally identical but smaller instances (listed in the evidence as miri_rows_run)",
+        "a build failure that is not a Send/Sync bound error is inconclusive, never a violation",
+    ],
+    "design_ref": "DESIGN.md §5 C20, §1",
+    "level_text": "The property is a type-level fact that only the compiler can discharge, so the deciding step is a compile gate over a hand-maintained, scan-cross-checked list of every public type; the runtime part (Miri race detector, TSan, native cross-thread rendering) watches the actual sharing of the reference-counted identifiers for an unsound unsafe impl. Category `other` because the gate is not an exploration of executions.",
+    "level_note": "Trusted: rustc's trait solver for the gate; Miri and TSan for the dynamic part. Validated on scratch mutants: Rc + unsafe impl Send/Sync is reported by Miri and TSan at SeaRc::clone, Rc without the impls and a non-Send field in WindowStatement are reported by the gate.",
+    "min_nontrivial": 50,
+}
